@@ -1422,6 +1422,21 @@ async fn execute_command<T: Into<String>>(
     let mut guard = crate::env::ScopeGuard::new(&mut context.shell, EnvironmentScope::Command);
 
     for assignment in assignments {
+        // A readonly variable can't be shadowed by a command-scoped assignment either; report
+        // that and run the command without it.
+        let (ast::AssignmentName::VariableName(name)
+        | ast::AssignmentName::ArrayElementName(name, _)) = &assignment.name;
+        if guard
+            .shell()
+            .env()
+            .get(name)
+            .is_some_and(|(_, var)| var.is_readonly())
+        {
+            let shell = guard.shell();
+            writeln!(params.stderr(shell), "{name}: readonly variable")?;
+            continue;
+        }
+
         // Ensure it's tagged as exported and created in the command scope.
         apply_assignment(
             assignment,
